@@ -46,7 +46,7 @@ PROPS = {
         assumptions=[T_VSTD, T_ARITH, T_EXTRACT, "T-find", "T-strslice: &s[a..b] on str yields the byte sub-range (vstd gives only its precondition)"],
     ),
     'C16': dict(
-        bounded_families=['search'],
+        bounded_families=['search', 'refsem'],
         level='proof',
         explanation=("Verified by Verus for the VM engine: Captures::get maps slot pairs to Option<Match> exactly as documented (None past the end, None for an unset start slot, no overflow for any index), "
                      "Captures::len is the number of slot pairs, Captures::iter / SubCaptureMatches::next yields get(0..len) in order, captures_from_pos truncates to exactly captures_len groups, "
